@@ -138,7 +138,7 @@ class LedgerBase:
     def call_disowns(self, b, an, bc, t, tr):
         """tracked locals that stop owning their resource because of this call (e.g. `obj.field.take()`)"""
         return ()
-    def switch_event(self, b, an, bc, blk, t, lab, on, tr):
+    def switch_event(self, b, an, bc, blk, t, lab, on, tr, fl=()):
         """(vector or None, note, flags to add) for one arm of a switch"""
         return None, '', ()
     def drop_effect(self, kind):
@@ -315,8 +315,8 @@ class LedgerBase:
                                     inherit = [('var', dst, f[2]) for f in fl if isinstance(f, tuple) and f[0] == 'retvar' and f[1] == sp.local and f[2]]
                             fl = _kill(fl, dst)
                             fl |= set(inherit)
-                            if rv.kind == 'agg' and rv.j.get('ak') == 'adt' and strip_generics(rv.j['adt']) in ENUMS:
-                                fl.add(('var', dst, rv.j['variant']))
+                            if rv.kind == 'agg' and rv.j.get('ak') == 'adt' and rv.j.get('variant'):
+                                fl.add(('var', dst, rv.j['variant']))          # any enum value built here has a known variant
                         if rv.kind in ('ref', 'rawptr') and rv.j.get('mut') and not [e for e in rv.place.proj if e != '*'] and '*' not in rv.place.proj:
                             fl = _kill(fl, rv.place.local)
                         for op in rv.ops:
@@ -409,6 +409,24 @@ class LedgerBase:
                         meth = sorted(names)[0].split('::')[-1] if names else ''
                         if meth in TESTS and subject is not None and any(n.startswith(('std::result::Result::', 'std::option::Option::')) for n in names):
                             fl.add(('test', dest, subject, TESTS[meth]))
+                        elif meth in ('eq', 'ne') and len(t.args) == 2 and any('PartialEq' in n for n in names):
+                            # `x == Enum::V` (derived PartialEq on a field-less enum): a test of x's variant
+                            refs = []
+                            for a in t.args:
+                                tgt = None
+                                if a.kind != 'const' and not a.place.proj:
+                                    da = an.single_def(a.place.local)
+                                    if da and da[0] == 'stmt' and da[3].rv.kind == 'ref' and not da[3].rv.place.proj:
+                                        tgt = da[3].rv.place.local
+                                refs.append(tgt)
+                            if None not in refs:
+                                cvs = []
+                                for l_ in refs:
+                                    ds_ = an.defs(l_)
+                                    cvs.append(ds_[0][3].rv.j['variant'] if len(ds_) == 1 and ds_[0][0] == 'stmt' and ds_[0][3].rv.kind == 'agg' and ds_[0][3].rv.j.get('variant') and not ds_[0][3].rv.ops else None)
+                                if (cvs[0] is None) != (cvs[1] is None):
+                                    subj = refs[1] if cvs[0] else refs[0]
+                                    fl.add(('test', dest, subj, ('==' if meth == 'eq' else '!=') + (cvs[0] or cvs[1])))
                         elif meth in CARRY and CARRY[meth] and recv_var in CARRY[meth] and any(n.startswith(('std::result::Result::', 'std::option::Option::', '<std::result::Result', '<std::option::Option')) or n.endswith('Try::branch') for n in names):
                             fl.add(('var', dest, CARRY[meth][recv_var]))
                         elif any(n.endswith('from_residual') for n in names):
@@ -526,18 +544,27 @@ class LedgerBase:
                             tf = [f for f in fl2 if isinstance(f, tuple) and f[0] == 'test' and f[1] == t.discr.place.local]
                             dead_arm = False
                             for f in tf:
-                                want = f[3] if lab == 'true' else OPPOSITE.get(f[3])
                                 have = _var_of(fl2, f[2])
+                                if isinstance(f[3], str) and f[3][:2] in ('==', '!='):
+                                    v_ = f[3][2:]
+                                    equal_arm = (lab == 'true') == (f[3][:2] == '==')
+                                    if have is not None and ((equal_arm and have != v_) or (not equal_arm and have == v_)):
+                                        dead_arm = True
+                                    elif equal_arm:
+                                        fl2.add(('var', f[2], v_))
+                                    continue
+                                want = f[3] if lab == 'true' else OPPOSITE.get(f[3])
                                 if have is not None and want is not None and have != want:
                                     dead_arm = True
                                 elif want is not None:
                                     fl2.add(('var', f[2], want))
                             if dead_arm:
                                 continue
-                        if on is not None and not on['pr'] and lab in OPPOSITE:
+                        if on is not None and not on['pr'] and t.j.get('variants') and lab in t.j['variants'].values():
                             have = _var_of(fl2, on['l'])
-                            if have is not None and have in OPPOSITE and have != lab:
+                            if have is not None and have in t.j['variants'].values() and have != lab:
                                 continue
+                            fl2 = {f for f in fl2 if not (isinstance(f, tuple) and f[0] == 'var' and f[1] == on['l'])}
                             fl2.add(('var', on['l'], lab))
                         if on is not None and not on['pr'] and tr.get(on['l'], '').startswith('opt') and lab == 'None':
                             ini2.discard(on['l'])
@@ -550,7 +577,7 @@ class LedgerBase:
                                     note2 = (note2 + ', ' if note2 else '') + pn
                                 elif lab in ('None', 'Err', 'Break'):
                                     fl2.discard(f_)
-                        dv, nt, addf = self.switch_event(b, an, bc, blk, t, lab, on, tr)
+                        dv, nt, addf = self.switch_event(b, an, bc, blk, t, lab, on, tr, fl2)
                         if dv is not None:
                             v2 = vadd(v2, dv); self._ev(b)
                         if nt:
@@ -717,13 +744,14 @@ class Ledger(LedgerBase):
             return (None, '')
         return None
 
-    def switch_event(self, b, an, bc, blk, t, lab, on, tr):
+    def switch_event(self, b, an, bc, blk, t, lab, on, tr, fl=()):
         if on is not None and not on['pr'] and on['l'] in bc.upgrade_dest and lab == 'None':
             return None, 'pool gone', ('dead',)          # the pool is gone: there are no books to keep
-        if t.j.get('dty') == 'bool' and b.path in self.helper_paths and not bc.skip_e1:
+        if (t.j.get('dty') == 'bool' or t.j.get('variants')) and b.path in self.helper_paths and not bc.skip_e1:
             rel = cmp_relation(an, self.r, blk, lab)
-            if rel and rel[0] in ('size>max', 'size>=max'):
-                return (1, 0, 0), 'surplus branch', ()              # surplus: shrink debt paid
+            if rel and rel[0] in ('size>max', 'size>=max') and 'surplus' not in fl:
+                # surplus: shrink debt paid - once per path, however many switches encode the same decision
+                return (1, 0, 0), 'surplus branch', ('surplus',)
         return None, '', ()
 
     def drop_effect(self, kind):
@@ -904,7 +932,7 @@ class UnmanagedLedger(LedgerBase):
             return ((0, 0, 0, -1), 'get guard disarmed')
         return None
 
-    def switch_event(self, b, an, bc, blk, t, lab, on, tr):
+    def switch_event(self, b, an, bc, blk, t, lab, on, tr, fl=()):
         if on is not None and not on['pr'] and on['l'] in bc.upgrade_dest and lab == 'None':
             return None, 'pool gone', ('dead',)
         if self.guard_drop is not None and b.path == self.guard_drop.path and dict(t.switch_arms()).get(lab) in self.guard_skips:
